@@ -223,6 +223,48 @@ def bounded_masks(p):
   d = {'p': [1, 2], 'q': [3]}
   got = expect(lambda: tree.apply_mask(d, masks={'p': [True, False], 'q': True}))
   S.check(got == ('ok', {'p': [1], 'q': [3]}), dict(mode='dict mask'), f'dict mask: {got}')
+  # dict masks over dict items: True keeps, False drops the key (filter) or replaces its value, a nested mask recurses
+  d3 = {'p': [1, 2], 'q': [3], 'r': 7}
+  for bits in itertools.product([True, False, 'nested'], repeat=2):
+    for r_keep in (True, False):
+      masks = {'p': [True, False] if bits[0] == 'nested' else bits[0], 'q': [False] if bits[1] == 'nested' else bits[1], 'r': r_keep}
+      def ref(replace):
+        out = {}
+        for k, mk in masks.items():
+          if mk is True:
+            out[k] = d3[k]
+          elif mk is False:
+            if replace is not None:
+              out[k] = replace
+          else:
+            out[k] = [x for x, b in zip(d3[k], mk) if b] if replace is None else [x if b else replace for x, b in zip(d3[k], mk)]
+        return out
+      got = expect(lambda: tree.apply_mask(d3, masks=masks))
+      if not S.check(got == ('ok', ref(None)), dict(mode='dict masks over dict items, filter', masks=repr(masks)), f'apply_mask({d3}, {masks}) = {got}; reference {ref(None)}', cls='dict-filter'):
+        return S.result()
+      got = expect(lambda: tree.apply_mask(d3, masks=masks, replace_false_with=0))
+      if not S.check(got == ('ok', ref(0)), dict(mode='dict masks over dict items, replace', masks=repr(masks)), f'apply_mask({d3}, {masks}, replace=0) = {got}; reference {ref(0)}', cls='dict-replace'):
+        return S.result()
+  # one array mask over a dict of equally long columns (documented: the columns are leaves, i.e. arrays): applied to every column
+  def _lists(t):
+    return {k: (_lists(v) if isinstance(v, dict) else [int(x) for x in v]) for k, v in t.items()}
+  for mask in itertools.product([True, False], repeat=3):
+    cols = {'x': np.array([1, 2, 3]), 'y': {'z': np.array([4, 5, 6])}}
+    for mk in (list(mask), np.array(mask)):
+      got = expect(lambda: _lists(tree.apply_mask(cols, masks=mk)))
+      exp = {'x': [v for v, b in zip([1, 2, 3], mask) if b], 'y': {'z': [v for v, b in zip([4, 5, 6], mask) if b]}}
+      if not S.check(got == ('ok', exp), dict(mode='one mask over a dict of array columns', mask=list(mask), mask_type=type(mk).__name__), f'apply_mask(dict of arrays, {mask}) = {got}; reference {exp}', cls='broadcast-filter'):
+        return S.result()
+      got = expect(lambda: _lists(tree.apply_mask(cols, masks=mk, replace_false_with=-1)))
+      exp = {'x': [v if b else -1 for v, b in zip([1, 2, 3], mask)], 'y': {'z': [v if b else -1 for v, b in zip([4, 5, 6], mask)]}}
+      if not S.check(got == ('ok', exp), dict(mode='one mask over a dict of array columns, replace', mask=list(mask), mask_type=type(mk).__name__), f'apply_mask(dict of arrays, {mask}, replace=-1) = {got}; reference {exp}', cls='broadcast-replace'):
+        return S.result()
+    # an ndarray of items with a plain list of Booleans
+    got = expect(lambda: [int(v) for v in tree.apply_mask(np.array([7, 8, 9]), masks=list(mask))])
+    if not S.check(got == ('ok', [v for v, b in zip([7, 8, 9], mask) if b]), dict(mode='ndarray items, list mask', mask=list(mask)), f'apply_mask(array, list {mask}) = {got}', cls='nd-listmask'):
+      return S.result()
+  got = expect(lambda: tree.apply_mask([1, 2], masks={'a': True}))
+  S.check(got == ('raise', 'TypeError'), dict(mode='a dict mask over a list is rejected'), f'apply_mask(list, dict mask) = {got}', cls='reject')
   # pipeline: tags per element; slice by tag with intra-example masks
   data = {'tags': [['p', 'q'], [], ['q'], ['p', 'p', 'r']], 'vals': [[1.0, 2.0], [], [4.0], [8.0, 16.0, 32.0]]}
   def tag_masks(tags):
